@@ -56,6 +56,8 @@ class Calls(Interp):
                 return self.instance_attr(obj, ci, attr, node, default)
             if kind in self.reg.shapes:
                 return self.shape_attr(obj, kind, attr, node, default)
+            if kind == "class" and attr in ("__name__", "__qualname__", "__module__"):
+                return SV(Val.strv(so.fmt(z3.StringVal("class." + attr), z3.Unit(obj.term))), "str")
             if kind == "exc" or kind in EXC_BASES:
                 if attr == "with_traceback":
                     return BoundV(obj, ("builtin", "exc"), attr)
@@ -291,6 +293,8 @@ class Calls(Interp):
         if cv.info is None:
             if attr == "__name__":
                 return SV(so.strv(cv.ext.split(".")[-1]), "str")
+            if attr in ("__repr__", "__str__"):
+                return BuiltinV("repr")          # BaseException.__repr__ etc.: a total text function
             self.unsupported(node, "attribute of external class")
         ci = cv.info
         if attr == "__name__":
@@ -1070,7 +1074,15 @@ class Calls(Interp):
         v = args[0]
         if isinstance(v, ItemsV):
             return ItemsV(v.dictval, v.what, True)
-        self.unsupported(node, "sorted()")
+        if isinstance(v, LazyMapV):
+            v = v.force(self, node)
+        # some permutation of the elements: only the length is known here
+        seq = self.as_seq(v, node)
+        out = so.fresh("sorted", SeqV)
+        self.assume(z3.Length(out) == z3.Length(seq))
+        if self.spec_mode:
+            return PSeq(out, self.elem_tag(v))
+        return self.new_list(out, self.elem_tag(v))
 
     def bi_any(self, args, kwargs, node):
         return self._anyall(args[0], node, True)
